@@ -65,7 +65,7 @@ fn texts_for<T: Fx>(r: &mut Rec, rng: &mut StdRng, scale: usize) {
         seqs.extend(next.iter().cloned());
         frontier = next;
     }
-    for _ in 0..(1500 * scale) {
+    for _ in 0..(if quick { 800 } else { 1500 * scale }) {
         let len = rng.gen_range(exhaustive + 1..=6);
         // biased towards well-formed shapes: mostly digits, some signs/points
         let s: String = (0..len)
@@ -86,22 +86,37 @@ fn texts_for<T: Fx>(r: &mut Rec, rng: &mut StdRng, scale: usize) {
     let frac_lens = [1usize, 2, sd - 1, sd, sd + 1, 2 * sd, 2 * sd + 1];
     let templates = ["I", "-I", "+I", "I.F", "-I.F", "+I.F", "I.", "-I.", ".F", "-.F", "I.F.F", "I.-F", "I.+F", "-I.-F", "+I.+F", "IeF", " I.F",
                      "I.F ", "I_I", "I._F", "I.F_", "--I", "+-I", "-+I.F", "I,F", "I.F\u{0663}", "\u{0663}.F", "0xI", "I.Fe1", "\u{2212}I.F"];
+    let fill = |rng: &mut StdRng, t: &str, il: usize, fl: usize, kind: usize| -> String {
+        let mut s = String::new();
+        for c in t.chars() {
+            match c {
+                'I' => s.push_str(&digit_run(rng, il, kind)),
+                'F' => s.push_str(&digit_run(rng, fl, kind + 1)),
+                c => s.push(c),
+            }
+        }
+        s
+    };
     for (ti, t) in templates.iter().enumerate() {
         for (ii, il) in int_lens.iter().enumerate() {
             for (fi, fl) in frac_lens.iter().enumerate() {
-                if quick && (ti + ii + fi) % 5 != 0 && !(ti < 6 && (ii + fi) % 2 == 0) {
+                // limits kept as a FULL product in every tier: the six well-formed shapes x all lengths; every malformed
+                // shape x (shortest / longest representable integer part) x (1, SD, SD+1 fraction digits)
+                let well_formed = ti < 6;
+                let limit_len = (*il == 1 || *il == maxint) && (*fl == 1 || *fl == sd || *fl == sd + 1);
+                if quick && !well_formed && !limit_len && (ti + ii + fi) % 5 != 0 {
                     continue;
                 }
                 let kind = ti + ii + fi;
-                let mut s = String::new();
-                for c in t.chars() {
-                    match c {
-                        'I' => s.push_str(&digit_run(rng, *il, kind)),
-                        'F' => s.push_str(&digit_run(rng, *fl, kind + 1)),
-                        c => s.push(c),
+                let s = fill(rng, t, *il, *fl, kind);
+                parse::<T>(r, &s);
+                // at the lengths where range overflow is decided by the digits, every digit pattern (99..9, 0..01, 10..0, random)
+                if well_formed && *il + 1 >= maxint && *il <= maxint + 1 {
+                    for k2 in 1..4 {
+                        let s = fill(rng, t, *il, *fl, kind + k2);
+                        parse::<T>(r, &s);
                     }
                 }
-                parse::<T>(r, &s);
             }
         }
     }
@@ -144,17 +159,18 @@ fn texts_for<T: Fx>(r: &mut Rec, rng: &mut StdRng, scale: usize) {
     // 5. values -> text -> value
     let bnd = boundary_values::<T>();
     for (i, x) in bnd.iter().enumerate() {
-        if quick && i % 3 != 0 {
+        let ncore = core_values::<T>().len();
+        if quick && i >= ncore && i % 3 != 0 {
             continue;
         }
         if let Some(p) = print(r, *x) {
             parse::<T>(r, &p);
-            if i % 6 == 0 {
+            if i < ncore || i % 6 == 0 {
                 variants::<T>(r, &p);
             }
         }
     }
-    for i in 0..(700 * scale) {
+    for i in 0..(if quick { 400 } else { 700 * scale }) {
         let x = random_value::<T>(rng);
         if let Some(p) = print(r, x) {
             parse::<T>(r, &p);
